@@ -4,6 +4,9 @@ import (
 	"fmt"
 	"math/rand"
 	"strings"
+
+	"oss.terrastruct.com/d2/d2ast"
+	"oss.terrastruct.com/d2/d2format"
 )
 
 // ---------------------------------------------------------------------------------------------
@@ -38,6 +41,13 @@ type Gen struct {
 	MultiRef   bool
 	ForceBoard bool
 	Nested     bool // every declaration is a nested map (no dotted declaration keys)
+	Extras     bool // add the structured source forms of extras()
+	nM         int
+	// what the enclosing board inherits (scenarios / steps): used to write local references to inherited elements
+	inhObjs   []pathObj
+	inhEdges  []*gedge
+	lastObjs  []pathObj
+	lastEdges []*gedge
 }
 
 func (g *Gen) count(s string) {
@@ -47,7 +57,7 @@ func (g *Gen) count(s string) {
 }
 
 var namePool = []string{"a", "b", "c", "d", "e", "x", "y", "z", "q"}
-var trickyNames = []string{"x 2", "B", "a b", "n1", "c 3", "Y", "w-w", "x 3"}
+var trickyNames = []string{"x 2", "B", "a b", "n1", "c 3", "Y", "w-w", "x 3", "v1.2", "a:b", "q.r"}
 
 func (g *Gen) name() string {
 	if g.Tricky && g.R.Intn(6) == 0 {
@@ -113,11 +123,9 @@ func (g *Gen) objs(depth, max int) []*gobj {
 	return out
 }
 
+// qname writes a name as one key segment in d2 syntax (quoted when it has to be: dots, colons, quotes …)
 func qname(n string) string {
-	if strings.ContainsAny(n, "\"'") {
-		return "'" + n + "'"
-	}
-	return n
+	return d2format.Format(&d2ast.KeyPath{Path: []*d2ast.StringBox{d2ast.MakeValueBox(d2ast.RawString(n, true)).StringBox()}})
 }
 
 type pathObj struct {
@@ -245,7 +253,132 @@ func (g *Gen) body(ind string) string {
 			g.count("gen:multi-ref")
 		}
 	}
+	if g.Extras {
+		g.extras(&sb, ind, all)
+	}
+	g.lastObjs, g.lastEdges = all, edges
 	return sb.String()
+}
+
+func (g *Gen) mname() string { g.nM++; return fmt.Sprintf("m%d", g.nM) }
+
+// extras adds, each with probability 1/2, source forms that the plain generator reaches rarely or never:
+// labelled connection chains, objects that exist only through flat attribute keys (the same attribute twice),
+// connections inside a container whose implicit endpoint clashes with an outer name, dotted declarations with a map
+// that holds a connection, three-level nesting with a child/sibling name clash, names that need quotes, and — on
+// boards that inherit — local references to inherited objects and connections.
+// Objects named m<n> that are written without a label keep their default label (see OpGen.Relabel).
+func (g *Gen) extras(sb *strings.Builder, ind string, all []pathObj) {
+	yes := func() bool { return g.R.Intn(2) == 0 }
+	if yes() { // chain with a label and/or a map; unique labels through indexed references
+		n := 3 + g.R.Intn(2)
+		var ns []string
+		for i := 0; i < n; i++ {
+			m := g.mname()
+			ns = append(ns, m)
+			fmt.Fprintf(sb, "%s%s: %s\n", ind, m, g.objLabel())
+		}
+		arrow := arrows[g.R.Intn(len(arrows))]
+		tail := ""
+		switch g.R.Intn(3) {
+		case 0:
+			tail = ": hi"
+		case 1:
+			tail = ": {\n" + ind + "  style.stroke: red\n" + ind + "}"
+		default:
+			tail = ": hi {\n" + ind + "  style.stroke-width: 4\n" + ind + "}"
+		}
+		fmt.Fprintf(sb, "%s%s%s\n", ind, strings.Join(ns, " "+arrow+" "), tail)
+		for i := 0; i+1 < n; i++ {
+			fmt.Fprintf(sb, "%s(%s %s %s)[0]: %s\n", ind, ns[i], arrow, ns[i+1], g.edgeLabel())
+		}
+		g.count("gen:x-chain")
+	}
+	if yes() { // an object that exists only through flat keys, the same attribute twice
+		m := g.mname()
+		pre := ""
+		if len(all) > 0 && yes() {
+			pre = joinPath(all[g.R.Intn(len(all))].path) + "."
+		}
+		a := [][3]string{{"style.fill", "red", "blue"}, {"width", "100", "140"}, {"style.opacity", "0.3", "0.8"}, {"tooltip", "t1", "t2"}}[g.R.Intn(4)]
+		fmt.Fprintf(sb, "%s%s%s.%s: %s\n", ind, pre, m, a[0], a[1])
+		if yes() {
+			fmt.Fprintf(sb, "%s%s%s.style.bold: true\n", ind, pre, m)
+		}
+		fmt.Fprintf(sb, "%s%s%s.%s: %s\n", ind, pre, m, a[0], a[2])
+		g.count("gen:x-flat-only-object")
+	}
+	if yes() { // connection inside a container; its implicit endpoint has the name of an outer object
+		outer, cont, kid := g.mname(), g.mname(), g.mname()
+		fmt.Fprintf(sb, "%s%s: %s\n", ind, outer, g.objLabel())
+		fmt.Fprintf(sb, "%s%s: %s {\n%s  %s: %s\n%s  %s -> %s: %s\n", ind, cont, g.objLabel(), ind, kid, g.objLabel(), ind, kid, outer, g.edgeLabel())
+		if yes() {
+			fmt.Fprintf(sb, "%s  %s -> %s: %s\n", ind, outer, g.mname(), g.edgeLabel())
+		}
+		fmt.Fprintf(sb, "%s}\n", ind)
+		g.count("gen:x-inner-edge-implicit-clash")
+	}
+	if yes() { // dotted declaration with a map that holds a connection (and attributes)
+		p, c := g.mname(), g.mname()
+		fmt.Fprintf(sb, "%s%s: %s\n", ind, p, g.objLabel())
+		fmt.Fprintf(sb, "%s%s.%s: %s {\n%s  shape: circle\n%s  %s -> %s: %s\n%s}\n", ind, p, c, g.objLabel(), ind, ind, g.mname(), g.mname(), g.edgeLabel(), ind)
+		g.count("gen:x-dotted-decl-with-map-edge")
+	}
+	if yes() { // three levels, a grandchild named like its parent's sibling
+		p, q, a := g.mname(), g.name(), g.name()
+		b := g.name()
+		if strings.EqualFold(a, b) {
+			b = b + "x"
+		}
+		fmt.Fprintf(sb, "%s%s: %s {\n%s  %s: %s {\n%s    %s: %s {\n%s      %s: %s\n%s    }\n%s    %s: %s\n%s  }\n%s}\n",
+			ind, p, g.objLabel(), ind, qname(q), g.objLabel(), ind, qname(a), g.objLabel(), ind, qname(b), g.objLabel(), ind, ind, qname(b), g.objLabel(), ind, ind)
+		if yes() {
+			fmt.Fprintf(sb, "%s%s.%s.%s.%s -> %s: %s\n", ind, p, qname(q), qname(a), qname(b), p, g.edgeLabel())
+		}
+		g.count("gen:x-deep-clash")
+	}
+	if yes() { // a child whose name needs quotes and is taken in the parent scope
+		nm := []string{"v1.2", "a:b", "x.y", "has#hash"}[g.R.Intn(4)]
+		cont := g.mname()
+		fmt.Fprintf(sb, "%s%s: %s\n", ind, qname(nm), g.objLabel())
+		fmt.Fprintf(sb, "%s%s: %s {\n%s  %s: %s\n%s}\n", ind, cont, g.objLabel(), ind, qname(nm), g.objLabel(), ind)
+		if yes() {
+			fmt.Fprintf(sb, "%s%s.%s -> %s: %s\n", ind, cont, qname(nm), cont, g.edgeLabel())
+		}
+		g.count("gen:x-quoted-name-clash")
+	}
+	// local references to what the board inherits
+	if len(g.inhObjs) > 0 {
+		for k := 1 + g.R.Intn(2); k > 0; k-- {
+			o := g.inhObjs[g.R.Intn(len(g.inhObjs))]
+			a := objAttrChoices[5+g.R.Intn(len(objAttrChoices)-5)]
+			fmt.Fprintf(sb, "%s%s.%s: %s\n", ind, joinPath(o.path), a[0], a[1])
+			g.count("gen:x-local-ref-to-inherited-object")
+		}
+	}
+	if len(g.inhEdges) > 0 && yes() {
+		// index of the chosen root-scoped connection inside its parallel group
+		grp := map[string]int{}
+		type ref struct {
+			k string
+			i int
+		}
+		var refs []ref
+		for _, e := range g.inhEdges {
+			if e.scope != nil {
+				continue
+			}
+			k := joinPath(e.src) + " " + e.arrow + " " + joinPath(e.dst)
+			refs = append(refs, ref{k, grp[k]})
+			grp[k]++
+		}
+		if len(refs) > 0 {
+			r := refs[g.R.Intn(len(refs))]
+			a := edgeAttrChoices[g.R.Intn(5)]
+			fmt.Fprintf(sb, "%s(%s)[%d].%s: %s\n", ind, r.k, r.i, a[0], a[1])
+			g.count("gen:x-local-ref-to-inherited-edge")
+		}
+	}
 }
 
 // mapReachable: the object at path is rendered as a real nested map (all ancestors mapStyle), so an edge can live in it.
@@ -320,6 +453,7 @@ var boardNames = []string{"l1", "l2", "s1", "s2", "t1", "t2", "t3"}
 // boards renders a `layers/scenarios/steps` section (depth ≤ 2 levels of nesting)
 func (g *Gen) boards(ind string, depth int) string {
 	var sb strings.Builder
+	parentObjs, parentEdges := g.lastObjs, g.lastEdges
 	kinds := []string{"layers", "scenarios", "steps"}
 	g.R.Shuffle(len(kinds), func(i, j int) { kinds[i], kinds[j] = kinds[j], kinds[i] })
 	nk := 1 + g.R.Intn(2)
@@ -338,7 +472,14 @@ func (g *Gen) boards(ind string, depth int) string {
 				nm = fmt.Sprintf("%s%d%d", k[:1], depth, i+1)
 			}
 			fmt.Fprintf(&sb, "%s  %s: {\n", ind, nm)
+			saveO, saveE := g.inhObjs, g.inhEdges
+			if k == "layers" {
+				g.inhObjs, g.inhEdges = nil, nil
+			} else {
+				g.inhObjs, g.inhEdges = parentObjs, parentEdges
+			}
 			sb.WriteString(g.body(ind + "    "))
+			g.inhObjs, g.inhEdges = saveO, saveE
 			if depth < 1 && g.R.Intn(3) == 0 {
 				sb.WriteString(g.boards(ind+"    ", depth+1))
 				g.count("gen:nested-board-depth2")
